@@ -143,6 +143,9 @@ type BoundedSpec struct {
 }
 
 var boundedSpecs = map[string][]BoundedSpec{
+	"C14": {{Name: "IsSQLi/lemma/plain-shapes", File: "c14_shapes_test.go.txt", Test: "TestZZBoundedPlainShapes",
+		What:  "second clause of C14 (e-mail-like, decimal and punctuated-sentence shapes built from non-keyword words) and a non-vacuity sample of the proved core: all sequences of up to <bound> words/numbers from a 25-item vocabulary, and 8 shapes over all word pairs, on the real IsSQLi",
+		Quick: 3, Thorough: 4}},
 	"C19": {{Name: "isBlackURL/lemma/all-encodings", File: "c19_encodings_test.go.txt", Test: "TestZZBoundedEncodings",
 		What:  "every encoding (literal either case, &#D; &#D &#0..0D; &#xH; &#XH) of up to <bound> simultaneously encoded bytes of each scheme, x leading junk x interleaved NUL/LF, is judged dangerous by the real isBlackURL and IsXSS(<a href=..>)",
 		Quick: 1, Thorough: 2}},
